@@ -2,6 +2,7 @@
  *   P <string>          -> "P <rc> <maj> <min> <patch>"
  *   C w0 w1 w2 h0 h1 h2 -> "C <0|1>"
  *   V <string>          -> "V <ok|refused|crash>"   (runtime check in a forked child; abort() interposed)
+ *   W <s1>|<s2>|...     -> "W <ok|refused|crash> <k>"  the checks one after the other in one process; k = how many returned
  */
 #define _GNU_SOURCE
 #include <stdio.h>
@@ -58,6 +59,42 @@ main(void)
 				printf("V refused\n");
 			else
 				printf("V crash\n");
+		} else if (line[0] == 'W') {
+			fflush(stdout);
+			int fds[2];
+			if (pipe(fds) != 0)
+				_exit(44);
+			pid_t p = fork();
+			if (p == 0) {
+				in_child = 1;
+				close(fds[0]);
+				char *q = line + 2;
+				for (;;) {
+					char *bar = strchr(q, '|');
+					if (bar)
+						*bar = '\0';
+					ovni_version_check_str(q);
+					if (write(fds[1], "x", 1) != 1)
+						_exit(45);
+					if (!bar)
+						break;
+					q = bar + 1;
+				}
+				_exit(0);
+			}
+			close(fds[1]);
+			int st = 0, k = 0;
+			char c;
+			while (read(fds[0], &c, 1) == 1)
+				k++;
+			close(fds[0]);
+			waitpid(p, &st, 0);
+			if (WIFEXITED(st) && WEXITSTATUS(st) == 0)
+				printf("W ok %d\n", k);
+			else if (WIFEXITED(st) && WEXITSTATUS(st) == 42)
+				printf("W refused %d\n", k);
+			else
+				printf("W crash %d\n", k);
 		} else if (line[0] == 'L') {
 			const char *v, *c;
 			ovni_version_get(&v, &c);
